@@ -41,7 +41,14 @@ CLAIM = dict(
           "the binaries and in any round, both verification modes, n_tries 1-3; every fill of every round judged against "
           "what must be selected for THAT binary in THAT round, computed without the controller's own arguments: the "
           "binary's targets as the caller gave them for a direct fill and the first round, and for a re-load round exactly "
-          "that binary's cores that were not in the wait state on the simulated machine after the previous round)."),
+          "that binary's cores that were not in the wait state on the simulated machine after the previous round; maps "
+          "whose keys name ONE file in different ways - ./ in the path, a doubled slash, relative vs absolute, a symbolic "
+          "link, a hard link, a copy with identical content - next to different binaries, on common or disjoint chips "
+          "with disjoint cores: the unchanged controller floods once per map ENTRY and each fill is then judged against "
+          "its own entry; an implementation that floods a file once for several entries is accepted and judged per "
+          "file - all its fills of that image together against the union of the entries naming it; chips listed with an "
+          "empty core set and chips named by equal-but-distinct key objects (tuple / namedtuple) occur in the compress, "
+          "call-sequence and controller streams - the tree histories take plain ints only)."),
     design="3/C12",
     note=("Proved: everything above, about the Lean model and the Lean specification. Validated only (differential "
           "testing, every run): that the Lean model computes what regions.py computes. Trusted: that SC&MP reads a "
@@ -102,7 +109,8 @@ RULE = ("target sets built from shapes: sparse points (whole grid or a small win
         "flood_fill_aplx({path: targets, ...} of 2-4 binaries) / load_application of 1-4 binaries with pairwise disjoint "
         "cores in random dictionary order, count or per-core verification, n_tries 1-3, with up to 16 fills of the "
         "sequence losing none, a few, half or nearly all chips (so any subset of the binaries is re-loaded, up to a "
-        "third round), the next "
+        "third round), entries naming one file under different spellings / links / a copy (\"<file>:<spelling>\"), "
+        "chips with empty core sets, namedtuple chip keys, the next "
         "request for a binary being the same chips with other cores, a part, a superset, the same again, or fresh, "
         "the same or another binary, the same dictionary object edited in place, a binary that cannot be opened; "
         "options drawn per case: argument kinds (ints, core collections, dictionary and key types), calling conventions, "
@@ -207,6 +215,17 @@ def gen_case(rng, tier_big):
     c = {"kind": "compress", "shapes": shapes, "order": rng.randrange(1 << 30)}
     if rng.random() < 0.3:
         c["args"] = gen_args(rng)       # other legal kinds of ints / collections / dictionaries, keyword call
+    if rng.random() < 0.15:
+        pts = [sh for sh in shapes if sh[0] in ("rect", "pt")]
+        c["empties"] = []
+        for _ in range(rng.choice([1, 2, 5, 16])):
+            if pts and rng.random() < 0.7:      # next to / inside what is requested
+                sh = rng.choice(pts)
+                x, y = sh[1] + rng.choice([-1, 0, 1, 3]), sh[2] + rng.choice([-1, 0, 1, 3])
+            else:
+                x, y = rng.randrange(256), rng.randrange(256)
+            if 0 <= x < 256 and 0 <= y < 256:
+                c["empties"].append([x, y])
     return c
 
 
@@ -296,10 +315,12 @@ def build_targets(case):
             acc.setdefault((x, y), set()).add(p)
     r = random.Random(case["order"])
     keys = sorted(k for k in acc if acc[k])
+    # chips listed with an EMPTY core set: nothing of them may be selected
+    keys += [tuple(e) for e in case.get("empties", []) if tuple(e) not in acc or not acc[tuple(e)]]
     r.shuffle(keys)
     targets = {}
     for k in keys:
-        cs = sorted(acc[k])
+        cs = sorted(acc.get(k, ()))
         r.shuffle(cs)
         targets[k] = set()
         for p in cs:
@@ -341,7 +362,7 @@ def guard(f, n=0):
 INT_KINDS = ("int", "bool", "enum", "numpy")
 CORE_KINDS = ("set", "frozenset", "list", "tuple", "duplist", "range", "keys", "gen", "iter", "mixed")
 DICT_KINDS = ("dict", "ordered", "default", "subclass")
-KEY_KINDS = ("tuple", "namedtuple")
+KEY_KINDS = ("tuple", "namedtuple", "mixed")
 _ENUM = {}
 
 
@@ -382,7 +403,7 @@ def dress(targets, args):
     kinds = [k for k in CORE_KINDS if k != "mixed"]
     for i, ((x, y), cs) in enumerate(targets.items()):
         key = (conv_int(x, ik), conv_int(y, ik))
-        if args.get("key") == "namedtuple":
+        if args.get("key") == "namedtuple" or (args.get("key") == "mixed" and i % 2):
             key = Chip(*key)
         lst = [conv_int(p, ik) for p in cs]
         ck = args.get("cores", "set")
@@ -416,6 +437,10 @@ def dress(targets, args):
         else:
             val = seq = list(lst)
         obj[key] = val
+        if args.get("key") == "mixed" and i % 3 == 0:
+            # the chip once more under an equal-but-distinct key object: still ONE entry of the dictionary
+            other = (key[0], key[1]) if isinstance(key, Chip) else Chip(*key)
+            obj[other] = val
         order += [[int(x), int(y), int(p)] for p in seq]
     return obj, order
 
@@ -768,6 +793,9 @@ def gen_calls(rng):
         d = {}
         for x, y, p in pts:
             d.setdefault((x, y), []).append(p)
+        if rng.random() < 0.2:
+            for _ in range(rng.choice([1, 3])):
+                d.setdefault((rng.randrange(256), rng.randrange(256)), [])       # listed with no cores
         mirror[name] = {k: set(v) for k, v in d.items()}
         steps.append(["new", name, [[x, y, list(cs)] for (x, y), cs in d.items()]])
 
@@ -800,7 +828,8 @@ def gen_calls(rng):
         else:
             cs = rand_cores(rng)[:3]
             d[(x, y)] = set(cs)
-            steps.append(["setchip", name, x, y, cs])
+            # a last `True`: the chip is named by an equal-but-distinct key object (a namedtuple)
+            steps.append(["setchip", name, x, y, cs] + ([True] if rng.random() < 0.5 else []))
 
     def twin(src, name):
         """a fresh dictionary equal to `src` in all but one aspect (one core more / less, one chip more / less)"""
@@ -920,7 +949,11 @@ def impl_calls(steps):
             recheck(len(calls))
             kept.append({"call": len(calls), "obj": box.get("out"), "snap": r.get("ok"), "reported": False})
         elif op == "setchip":
-            d[(st[2], st[3])] = set(st[4])
+            if len(st) > 5 and st[5]:
+                import collections
+                d[collections.namedtuple("Chip", "x y")(st[2], st[3])] = set(st[4])
+            else:
+                d[(st[2], st[3])] = set(st[4])
         elif (st[2], st[3]) not in d:
             continue
         elif op == "discard":
@@ -1203,6 +1236,9 @@ def gen_targets_on(rng, chips):
     for x, y in cs:
         cores = common_set if mode < 0.5 else rand_cores(rng)[:rng.choice([1, 2, 3])]
         out.append([x, y, sorted(set(cores))])
+    if rng.random() < 0.2:      # chips listed with an empty core set: nothing of them may be selected
+        have = {(x, y) for x, y, _ in out}
+        out += [[x, y, []] for x, y in chips if (x, y) not in have and rng.random() < 0.4]
     rng.shuffle(out)
     return out
 
@@ -1221,7 +1257,7 @@ def vary_targets(rng, chips, t):
             q = rng.random()
             if q < 0.3:
                 continue
-            out.append([x, y, cs if q < 0.6 else sorted(rng.sample(cs, rng.randrange(1, len(cs) + 1)))])
+            out.append([x, y, cs if q < 0.6 or not cs else sorted(rng.sample(cs, rng.randrange(1, len(cs) + 1)))])
         return out or [t[0]]
     if r < 0.65:        # more of it
         out = [[x, y, sorted(set(cs) | set(rand_cores(rng)[:2]))] for x, y, cs in t]
@@ -1231,6 +1267,15 @@ def vary_targets(rng, chips, t):
     if r < 0.8:
         return [list(e) for e in t]      # exactly the same again
     return gen_targets_on(rng, chips)
+
+
+SPELLINGS = ("dot", "slash", "rel", "sym", "hard", "copy")
+
+
+def entry_file(name):
+    """an application-map entry is named by a file number, or "<file>:<spelling>" for another way to name that file
+    (./ in the path, a doubled slash, a relative path, a symbolic link, a hard link, a copy with identical content)"""
+    return int(str(name).split(":")[0])
 
 
 def gen_fills(rng):
@@ -1259,17 +1304,30 @@ def gen_fills(rng):
     images = [[rng.randrange(256) for _ in range(4 * rng.randrange(1, 9))] for _ in range(4)]
     steps, last = [], {}
 
+    def spelled(f):
+        return f if rng.random() < 0.6 else "%d:%s" % (f, rng.choice(SPELLINGS))
+
     def disjoint_map(first_name, first_t, n):
-        """n binaries with pairwise disjoint cores, in a random dictionary order"""
+        """n entries with pairwise disjoint cores, in a random dictionary order: different binaries, and the SAME file
+        named in different ways (the chips of such entries overlap or not, the cores never)"""
         pairs, used = [[first_name, first_t]], {(x, y, p) for x, y, cs in first_t for p in cs}
-        for other in [b for b in rng.sample(range(4), 4) if b != first_name][:n - 1]:
+        others = [b for b in rng.sample(range(4), 4) if b != entry_file(first_name)]
+        for _ in range(n - 1):
+            if rng.random() < 0.4:
+                f = entry_file(rng.choice(pairs)[0])            # the same file again, spelled differently
+                free = [sp for sp in SPELLINGS if all(str(q[0]) != "%d:%s" % (f, sp) for q in pairs)]
+                other = "%d:%s" % (f, rng.choice(free)) if free else None
+            else:
+                other = spelled(others.pop()) if others else None
+            if other is None:
+                continue
             t2 = gen_targets_on(rng, tch)
             t2 = [[x, y, [p for p in cs if (x, y, p) not in used]] for x, y, cs in t2]
-            t2 = [e for e in t2 if e[2]]
-            if t2:
+            t2 = [e for e in t2 if e[2] or rng.random() < 0.3]       # some chips stay listed with an empty core set
+            if any(e[2] for e in t2):
                 used |= {(x, y, p) for x, y, cs in t2 for p in cs}
                 pairs.append([other, t2])
-                last[other] = t2
+                last[entry_file(other)] = t2
         rng.shuffle(pairs)
         return pairs
     app_id = rng.choice([30, 31, 66])
@@ -1286,13 +1344,13 @@ def gen_fills(rng):
             steps.append(["ff", 9, t, app_id, True])
         elif r < 0.5:
             # a last `True`: the caller passes the SAME dictionary object as last time for this binary, edited in place
-            steps.append(["ff", name, t, app_id, rng.random() < 0.6] + ([True] if rng.random() < 0.4 else []))
+            steps.append(["ff", spelled(name), t, app_id, rng.random() < 0.6] + ([True] if rng.random() < 0.4 else []))
         elif r < 0.6:
-            steps.append(["ffmap", disjoint_map(name, t, rng.choice([2, 2, 3, 4])), app_id, rng.random() < 0.6])
+            steps.append(["ffmap", disjoint_map(spelled(name), t, rng.choice([2, 2, 3, 4])), app_id, rng.random() < 0.6])
         else:
             # one load_application call for 1-4 binaries (dictionary order random); which fills lose which chips is
             # drawn below, so cores fail in any subset of the binaries, in any round
-            steps.append(["load", disjoint_map(name, t, rng.choice([1, 2, 2, 3, 4])), app_id, rng.choice([1, 2, 3]),
+            steps.append(["load", disjoint_map(spelled(name), t, rng.choice([1, 2, 2, 3, 4])), app_id, rng.choice([1, 2, 3]),
                           rng.random() < 0.5, rng.random() < 0.5] + ([True] if rng.random() < 0.3 else []))
     missed = []
     for i in range(rng.choice([0, 2, 4, 8, 12, 16])):
@@ -1322,12 +1380,43 @@ def impl_fills(c):
         with open(paths[n], "wb") as f:
             f.write(bytes(im))
     paths[9] = os.path.join(_FILLDIR[0], "no-such-binary.aplx")
+
+    def path_of(name):
+        """the path an entry name stands for (created on first use)"""
+        if name in paths:
+            return paths[name]
+        f, sp = entry_file(name), str(name).split(":")[1]
+        d, base = os.path.split(paths[f])
+        if sp == "dot":
+            q = os.path.join(d, ".", base)
+        elif sp == "slash":
+            q = d + "//" + base
+        elif sp == "rel":
+            q = os.path.relpath(paths[f])
+        else:
+            q = os.path.join(d, "%s_%s" % (sp, base))
+            if os.path.lexists(q):
+                os.remove(q)
+            if sp == "sym":
+                os.symlink(paths[f], q)
+            elif sp == "hard":
+                os.link(paths[f], q)
+            else:
+                with open(q, "wb") as fh:
+                    fh.write(bytes(c["images"][f]))
+        paths[name] = q
+        return q
+    for st in c["steps"]:
+        for nm in ([st[1]] if st[0] == "ff" else [q[0] for q in st[1]]):
+            path_of(nm)
     names = {v: n for n, v in paths.items()}
     machine = h9.LoadMachine(c["chips"], cfg.get("buf", 256), cfg.get("sdram_sys", FILL_SDRAM_SYS),
                              cfg.get("vcpu_base", FILL_VCPU_BASE), c["missed"], [], k, sver=cfg.get("sver", "semver"))
     net = simnet.Net(machine.handle, lambda i, d: None)
     calls, errors, cur, inv, faults = [], [], [0], [0], [0]
-    keep = {}
+    keep, inv_fills = {}, {}
+    import collections
+    Chip = collections.namedtuple("Chip", "x y")
 
     def tdict(name, t, reuse):
         """a fresh dictionary of fresh sets, or (reuse) the object passed for this binary last time, edited in place"""
@@ -1341,7 +1430,8 @@ def impl_fills(c):
             if (x, y) in d:
                 d[(x, y)].clear()
             else:
-                d[(x, y)] = set()
+                # entries named by another spelling use equal-but-distinct key objects for their chips
+                d[Chip(x, y) if ":" in str(name) else (x, y)] = set()
             for p in cs:
                 d[(x, y)].add(p)
         keep[name] = d
@@ -1358,7 +1448,11 @@ def impl_fills(c):
                 calls.append({"name": names.get(path), "step": cur[0], "inv": inv[0],
                               "targets": [[x, y, sorted(cs)] for (x, y), cs in targets.items()],
                               "order": [[x, y, p] for (x, y), cs in targets.items() for p in cs]})
-            return real(*args, **kw)
+            n0 = machine.fills
+            try:
+                return real(*args, **kw)
+            finally:
+                inv_fills[inv[0]] = (n0, machine.fills)
         mc.flood_fill_aplx = recording
         for i, st in enumerate(c["steps"]):
             cur[0] = i
@@ -1382,7 +1476,8 @@ def impl_fills(c):
                 r = {"err": "Other KeyError"}
             if "err" in r:
                 # a flood fill that failed before its start packet went out leaves no fill to judge
-                del calls[n_calls + (machine.fills - n_fills):]
+                if machine.fills == n_fills:
+                    del calls[n_calls:]
                 if st[0] == "ff" and st[1] == 9 and r["err"].startswith("Other") and "DidNotReturn" not in r["err"]:
                     faults[0] += 1              # the binary that does not exist: IOError / OSError expected
                     continue
@@ -1392,45 +1487,87 @@ def impl_fills(c):
     # first round of load_application select the binary's targets as the caller gave them; a re-load round selects
     # exactly that binary's cores that were not in the wait state after the previous round (the machine's state at the
     # round's first start packet: nothing changes between the controller's probing and that packet)
-    first_inv = {}
-    for j, call in enumerate(calls):
-        first_inv.setdefault(call["inv"], j)
     step_first_inv = {}
     for call in calls:
         step_first_inv.setdefault(call["step"], call["inv"])
-    for j, call in enumerate(calls):
+    for call in calls:
         st = c["steps"][call["step"]]
-        given = {n: t for n, t in ([[st[1], st[2]]] if st[0] == "ff" else st[1])}
-        want = [[x, y, p] for x, y, cs in given.get(call["name"], []) for p in cs]
+        given = {str(n): t for n, t in ([[st[1], st[2]]] if st[0] == "ff" else st[1])}
+        want = [[x, y, p] for x, y, cs in given.get(str(call["name"]), []) for p in cs]
         call["round"] = 1
+        call["file"] = entry_file(call["name"]) if call["name"] is not None else None
         if st[0] == "load" and call["inv"] != step_first_inv[call["step"]]:
             call["round"] = 1 + call["inv"] - step_first_inv[call["step"]]
-            k0 = first_inv[call["inv"]]
+            k0 = inv_fills.get(call["inv"], (0, 0))[0]
             snap = machine.snapshots[k0] if k0 < len(machine.snapshots) else {}
             want = [q for q in want if snap.get(tuple(q), (h9.IDLE, 0, ()))[0] != h9.WAIT]
         call["expect"] = sorted(want)
     fills = []
     for raw, _ in machine.log:
+        if raw["cmd"] == 23 and fills:
+            fills[-1]["image"] += list(raw["data"])
         if raw["cmd"] != 20:
             continue
         op = raw["arg1"] >> 24
         if op == k["nnFfs"]:
-            fills.append([])
+            fills.append({"pairs": [], "image": []})
         elif op == k["nnFfcs"] and fills:
             # documented layout of the core-select packet: arg1 = command << 24 | core mask, arg2 = region
-            fills[-1].append([raw["arg2"], raw["arg1"] & 0xffffff])
-    return {"calls": calls, "fills": fills, "errors": errors, "faults": faults[0]}
+            fills[-1]["pairs"].append([raw["arg2"], raw["arg1"] & 0xffffff])
+    for f in fills:
+        f["file"] = next((n for n, im in enumerate(c["images"]) if list(im) == f["image"]), None)
+        del f["image"]
+    # what is judged: per flood_fill_aplx invocation, the fills it sent.  The unchanged controller floods once per
+    # map ENTRY: then fill and entry are paired in order and each fill must select exactly its entry's cores.  An
+    # implementation may flood a FILE once although several entries name it: then, per file, everything its fills
+    # select together is judged against the union of the targets of the entries naming that file.
+    items = []
+    for v in sorted(inv_fills):
+        lo, hi = inv_fills[v]
+        mine = [call for call in calls if call["inv"] == v]
+        sent = list(range(lo, min(hi, len(fills))))
+        if not mine:
+            continue
+        rnd = ("as requested" if mine[0]["round"] == 1 else "re-load round %d of load_application: the cores that were "
+               "not waiting after the previous round" % mine[0]["round"])
+        if len(sent) == len(mine):
+            for call, j in zip(mine, sent):
+                items.append({"what": "flood fill #%d (step %d, map entry %s, %s)" % (j + 1, call["step"], call["name"], rnd),
+                              "expect": call["expect"], "pairs": fills[j]["pairs"], "fills": [j], "order": call["order"],
+                              "file_ok": fills[j]["file"] == call["file"]})
+        else:
+            for fno in sorted({call["file"] for call in mine}):
+                js = [j for j in sent if fills[j]["file"] == fno]
+                exp = sorted({tuple(q) for call in mine if call["file"] == fno for q in call["expect"]})
+                items.append({"what": "the %d flood fill(s) of binary %s in one flood_fill_aplx call with %d map entries "
+                                      "(step %d, %s; entries %s name this file)"
+                                      % (len(js), fno, len(mine), mine[0]["step"], rnd,
+                                         [call["name"] for call in mine if call["file"] == fno]),
+                              "expect": [list(q) for q in exp], "pairs": [q for j in js for q in fills[j]["pairs"]],
+                              "fills": js, "order": None, "file_ok": True})
+            stray = [j for j in sent if fills[j]["file"] not in {call["file"] for call in mine}]
+            if stray:
+                items.append({"what": "flood fill(s) %s of step %d carry an image of no requested binary"
+                                      % ([j + 1 for j in stray], mine[0]["step"]), "expect": [],
+                              "pairs": [q for j in stray for q in fills[j]["pairs"]], "fills": stray, "order": None,
+                              "file_ok": False})
+    return {"calls": calls, "fills": fills, "items": items, "errors": errors, "faults": faults[0]}
 
 
 def prepare_fills(c, reqs, idx):
     reload_rig(controller=True)
     c["impl"] = impl_fills(c)
-    for i, (call, pairs) in enumerate(zip(c["impl"]["calls"], c["impl"]["fills"])):
-        reqs.append({"suite": "c12", "op": "compress", "targets": call["order"]})
-        idx.append((c, ("model", i)))
-        tg = call["expect"]
-        reqs.append({"suite": "c12", "op": "oracle", "targets": tg, "out": pairs, "queries": queries({}, tg)})
+    for i, it in enumerate(c["impl"]["items"]):
+        if it["order"] is not None:
+            reqs.append({"suite": "c12", "op": "compress", "targets": it["order"]})
+            idx.append((c, ("model", i)))
+        tg = it["expect"]
+        reqs.append({"suite": "c12", "op": "oracle", "targets": tg, "out": it["pairs"], "queries": queries({}, tg)})
         idx.append((c, ("oracle", i)))
+        if len(it["fills"]) > 1:        # the order is a property of each packet stream
+            for j in it["fills"]:
+                reqs.append({"suite": "c12", "op": "oracle", "targets": [], "out": c["impl"]["fills"][j]["pairs"]})
+                idx.append((c, ("sorted", i, j)))
 
 
 def verdict_fills(c):
@@ -1442,28 +1579,26 @@ def verdict_fills(c):
             found.append(("did-not-return", "step %d of a sequence on one MachineController did not return (%s); whole "
                           "sequence: chips %s steps %s" % (r["errors"][0][0], r["errors"][0][1], str(c["chips"])[:120],
                                                            str(c["steps"])[:400])))
-    if len(r["calls"]) != len(r["fills"]) and not r["errors"]:
-        mism = mism or "%d flood fills requested, %d flood-fill start packets seen" % (len(r["calls"]), len(r["fills"]))
-    for i, (call, pairs) in enumerate(zip(r["calls"], r["fills"])):
-        where = ("flood fill #%d of a sequence on one MachineController (step %d, binary %s, %s): the FFCS packets carry "
-                 "(region, core mask) = %s where exactly the cores %s must be selected"
-                 % (i + 1, call["step"], call["name"],
-                    "as requested" if call["round"] == 1 else "re-load round %d of load_application: this binary's cores "
-                    "that were not waiting after the previous round" % call["round"], str(pairs)[:200],
-                    str(call["expect"])[:200]))
-        m = c[("model", i)]
-        if m != {"ok": pairs}:
-            mism = mism or "%s; model: %s" % (where, str(m)[:200])
+    tail = "; whole sequence: chips %s steps %s missed %s" % (str(c["chips"])[:120], str(c["steps"])[:400],
+                                                              str(c["missed"])[:100])
+    for i, it in enumerate(r["items"]):
+        where = ("%s of a sequence on one MachineController: the FFCS packets carry (region, core mask) = %s where exactly "
+                 "the cores %s must be selected" % (it["what"], str(it["pairs"])[:200], str(it["expect"])[:200]))
+        if it["order"] is not None:
+            m = c[("model", i)]
+            if m != {"ok": it["pairs"]}:
+                mism = mism or "%s; model: %s" % (where, str(m)[:200])
+        if not it["file_ok"]:
+            mism = mism or "%s: the data packets of this fill carry another binary" % it["what"]
         o = c[("oracle", i)]
         if not o["nodup"]:
             raise RuntimeError("harness error: the oracle was given a target list with repetitions")
-        tail = "; whole sequence: chips %s steps %s missed %s" % (str(c["chips"])[:120], str(c["steps"])[:400],
-                                                                  str(c["missed"])[:100])
         if not o["exact"] or o["bad"]:
             found.append(("ffcs-not-exact", "%s: they do not select exactly the requested cores once each under the "
                           "documented region word%s%s" % (where, (" ((x, y, p, expected, selected by) = %r)" % o["bad"])
                                                           if o["bad"] else "", tail)))
-        if not o["sorted"]:
+        srt = o["sorted"] if len(it["fills"]) <= 1 else all(c[("sorted", i, j)]["sorted"] for j in it["fills"])
+        if not srt:
             found.append(("ffcs-not-increasing", "%s: not strictly increasing%s" % (where, tail)))
     return mism, found
 
@@ -1584,6 +1719,22 @@ def finish_seq(ctx, c, desc):
                 ctx.tag("fills_same_dictionary_object_edited_in_place")
         if r.get("faults"):
             ctx.tag("fills_used_on_after_failed_call")
+        for st in c["steps"]:
+            ents = [st[1]] if st[0] == "ff" else [q[0] for q in st[1]]
+            for nm in ents:
+                if ":" in str(nm):
+                    ctx.tag("fills_binary_named_by_" + str(nm).split(":")[1])
+            files = [entry_file(nm) for nm in ents]
+            if len(set(files)) < len(files):
+                tl = [q[1] for q in st[1]]
+                dup = [f for f in set(files) if files.count(f) > 1][0]
+                chipsets = [{(x, y) for x, y, _ in t} for nm, t in zip(ents, tl) if entry_file(nm) == dup]
+                ctx.tag("fills_one_file_under_two_keys_%s" % ("common_chips" if chipsets[0] & chipsets[1]
+                                                              else "disjoint_chips"))
+            if any(not e[2] for t in ([st[2]] if st[0] == "ff" else [q[1] for q in st[1]]) for e in t):
+                ctx.tag("fills_chip_with_empty_core_set")
+        if any(len(it["fills"]) != 1 or it["order"] is None for it in r["items"]):
+            ctx.tag("fills_judged_per_file")
         for i, st in enumerate(c["steps"]):
             if st[0] != "load":
                 continue
@@ -1607,7 +1758,7 @@ def finish_seq(ctx, c, desc):
             ctx.tag("fills_same_binary_same_chips_other_cores")
         if any(len({call["inv"] for call in r["calls"] if call["step"] == i}) > 1 for i in range(len(c["steps"]))):
             ctx.tag("fills_load_application_retried")
-        if any(((rg >> 16) & 3) < 3 for f in r["fills"] for rg, _ in f):
+        if any(((rg >> 16) & 3) < 3 for f in r["fills"] for rg, _ in f["pairs"]):
             ctx.tag("fills_merged_block_word")
         ctx.traces += max(0, len(r["fills"]) - 1)
         ctx.case(desc, len(r["fills"]) >= 2)
@@ -1707,7 +1858,7 @@ def finish(ctx, cases, idx, replies):
         c[what] = r
     for c in cases:
         desc = {k: v for k, v in c.items() if k in ("kind", "shapes", "order", "points", "x", "y", "level", "ops",
-                                                    "steps", "trees", "chips", "images", "missed", "args", "opts",
+                                                    "steps", "trees", "chips", "images", "missed", "args", "opts", "empties",
                                                     "conv", "ints", "cfg")}
         ctx.traces += 1
         if c["kind"] in SEQ:
@@ -1758,6 +1909,8 @@ def finish(ctx, cases, idx, replies):
         nontriv = False
         for k, v in sorted((c.get("args") or {}).items()):
             ctx.tag("arg_%s_%s" % (k, v))
+        if c.get("empties"):
+            ctx.tag("chips_with_empty_core_set")
         if not c["_valid"]:
             ctx.tag("malformed_" + c["impl"].get("err", "accepted"))
         elif "ok" not in c["impl"]:
